@@ -23,7 +23,8 @@ def run(ctx: lib.Ctx) -> None:
     # (A) (+ the generator agrees with Typing.v, + the reference: a disagreement there alone is C01's business)
     obs_l = [G.obs_coq(o) for o in metas]
     bad_t, bad_a, _ = c01.triple_check(ctx, 'main', coq_cases, [f'(Full {o})' for o in obs_l], [f'(erase_obs {o})' for o in obs_l])
-    c01.tc_fail(cases, bad_t)
+    skip = c01.tc_fail(ctx, cases, bad_t)
+    bad_a = [i for i in bad_a if i not in skip]
     # (B) static type vs run-time type expression of every slot
     idx, b_cases, outside = [], [], []
     for i, (c, o) in enumerate(zip(coq_cases, metas)):
@@ -40,7 +41,7 @@ def run(ctx: lib.Ctx) -> None:
         ctx.dist['slots_checked'] += len(tys)
     bad_b = [idx[j] for j in ctx.coq_mismatches('ty', c01.IMPORTS, 'static_types', 'option_eqb (list_eqb ty_eqb)', c01.CASE_TY,
                                                 'option (list ty)', b_cases, prelude=c01.PRELUDE)]
-    bad_b = sorted(set(bad_b) | set(outside))
+    bad_b = sorted((set(bad_b) | set(outside)) - skip)
     ctx.extra['disagreements_model'] = len(bad_a)
     ctx.extra['type_mismatches'] = len(bad_b)
     ctx.extra['first_disagreements'] = [{'i': i, 'program': G.case_text(cases[i])[:400], 'stream': cases[i]['stream'],
@@ -67,7 +68,9 @@ def run(ctx: lib.Ctx) -> None:
     ccases, cmetas, ccoq = c01.collect_contracts(ctx)
     cobs = [G.contract_obs_coq(o) for o in cmetas]
     cbad_t, cbad_a, cbad_b = c01.triple_check(ctx, 'contract', ccoq, [f'(Erased {o})' for o in cobs], cobs)
-    c01.tc_fail(ccases, cbad_t)
+    cskip = c01.tc_fail(ctx, ccases, cbad_t, 'contracts')
+    cbad_a = [i for i in cbad_a if i not in cskip]
+    cbad_b = [i for i in cbad_b if i not in cskip]
     ctx.extra['contract_disagreements_reference'] = len(cbad_b)
     for i in cbad_b:
         o = cmetas[i]
